@@ -183,6 +183,21 @@ def check_identity(node):
     if len(back) != 1 or type(back[0]) is not cls:
         vs.append(V("decoding dispatches (vendor, code) to the class", "dispatch/wrong-class",
                     f"{row['cls']} -> {[type(b).__name__ for b in back]}"))
+    # the dictionary is keyed by the *pair*: the same code under another vendor presence is not this class
+    other_vendor = None if row["vendor"] is not None else 99999
+    if refdict.by_key(other_vendor, row["code"]) is None:
+        flags = (row["flags"] & 0x7f) | (0x80 if other_vendor is not None else 0)
+        alien = rc.enc_avp(row["code"], flags, other_vendor, want)
+        try:
+            back2 = DiameterAVP.load(alien)
+            if len(back2) != 1 or type(back2[0]) is not DiameterAVP:
+                vs.append(V("decoding dispatches by the (vendor, code) pair, not by the code alone", "dispatch/foreign-vendor-to-dictionary-class",
+                            f"({other_vendor},{row['code']}) -> {[type(b).__name__ for b in back2]}"))
+            elif back2[0].get_vendor_id() != other_vendor or back2[0].dump() != alien:
+                vs.append(V("an unknown pair is kept as a generic AVP with its wire fields", "dispatch/foreign-vendor-altered", alien.hex()[:80]))
+        except (Exception,) + errors as e:
+            vs.append(V("decoding dispatches by the (vendor, code) pair, not by the code alone", f"dispatch/foreign-vendor-raises/{type(e).__name__}",
+                        f"({other_vendor},{row['code']}): {e!r}"))
     return "ok", None, vs
 
 
